@@ -958,3 +958,33 @@ Proof.
   - apply sort_slots_sorted.
   - eapply Permutation_NoDup; [|exact Hnd]. apply Permutation_map. apply Permutation_sym. exact P.
 Qed.
+
+(* ---------- a successful split has validated every field ---------- *)
+Lemma group_fields_valid fields oc : forall gs gs',
+  group_fields fields oc gs = Ok gs' -> Forall (fun f => validate f = Ok tt) fields.
+Proof.
+  induction fields as [|f rest IH]; intros gs gs' H; [constructor|].
+  cbn [group_fields] in H. apply bind_ok in H. destruct H as [[] [Hv H]].
+  constructor; [exact Hv|].
+  destruct (oc && negb (f_type f =? 14)); [eapply IH; eassumption|].
+  destruct (negb oc && (f_type f =? 14)); eapply IH; eassumption.
+Qed.
+
+Lemma split_ok_valid fields t reqs : split fields t = Ok reqs -> Forall (fun f => validate f = Ok tt) fields.
+Proof.
+  unfold split, group_for_single_connection. intros H. apply bind_ok in H. destruct H as [gs [G _]].
+  eapply group_fields_valid. exact G.
+Qed.
+
+Lemma validate_ok f : validate f = Ok tt ->
+  f_server f <> [] /\ 1 <= f_type f <= 14 /\ f_bit f <= 15 /\ (f_type f = 13 -> 1 <= f_len f).
+Proof.
+  unfold validate. intros H.
+  destruct (length (f_server f) =? 0)%nat eqn:E1; [discriminate|].
+  destruct (f_type f =? 0) eqn:E2; [discriminate|].
+  destruct (14 <? f_type f) eqn:E3; [discriminate|].
+  destruct (15 <? f_bit f) eqn:E4; [discriminate|].
+  destruct ((f_type f =? 13) && (f_len f =? 0)) eqn:E5; [discriminate|].
+  repeat split; try lia.
+  intros E. rewrite E in E1. discriminate.
+Qed.
